@@ -2,5 +2,6 @@ import NflowsModel.Audit.Tool
 import NflowsModel.Properties.C03
 import NflowsModel.Properties.C03ND
 import NflowsModel.Properties.C03B
+import NflowsModel.Properties.C03M
 
 #audit_namespace Properties.C03
